@@ -8,6 +8,8 @@
 // recorded, it is the function registered under the name (or the missing-method handler for an unknown
 // name), the recorded arguments are Canon-equal to the ones passed, the results are Canon-equal to the
 // local results, and an error / panic of the function arrives as an error carrying its message.
+//
+//go:debug panicnil=1
 package main
 
 import (
@@ -126,6 +128,7 @@ func buildSpecs() {
 	fn("PanicErr", "panic-error", PanicErr).Over = map[int][]interface{}{0: messages}
 	fn("PanicCustom", "panic-custom-value", PanicCustom).Over = map[int][]interface{}{0: codes}
 	fn("PanicRuntime", "panic-runtime-error", PanicRuntime).Over = map[int][]interface{}{0: codes}
+	fn("PanicNil", "panic-nil", PanicNil).Over = map[int][]interface{}{0: codes}
 	fn("StructRT", "struct-param", StructRT)
 	fn("PtrRT", "pointer-param", PtrRT)
 	fn("PtrInt", "pointer-param", PtrInt)
@@ -598,11 +601,22 @@ func (e *env) remote(f *fnSpec, args []reflect.Value, spelling, mode string) (o 
 // local runs the reference model: the same Go function, called directly.
 func local(e *env, f *fnSpec, args []reflect.Value) (outs []reflect.Value, errMsg string, isErr bool) {
 	defer takeRecs()
+	returned := false
 	defer func() {
+		// this program runs with the pre-1.21 meaning of panic(nil) (recover returns nil), which is what an
+		// application whose go.mod says go 1.13..1.20 gets: the flag tells a panic from a return
 		if p := recover(); p != nil {
 			outs, errMsg, isErr = nil, fmt.Sprintf("%v", p), true
+		} else if !returned {
+			outs, errMsg, isErr = nil, "", true
 		}
 	}()
+	outs, errMsg, isErr = localCall(e, f, args)
+	returned = true
+	return
+}
+
+func localCall(e *env, f *fnSpec, args []reflect.Value) (outs []reflect.Value, errMsg string, isErr bool) {
 	in := args
 	if f.Ctx {
 		in = append([]reflect.Value{reflect.ValueOf(rpclab.ServiceCtx(e.svc))}, args...)
